@@ -125,8 +125,31 @@ impl PushIteratorToArray {
             .iterators
             .pop()
             .js_expect("iterator stack should have at least an iterator")?;
+        let o = array.as_object().js_expect("should be an object")?;
         while let Some(next) = iterator.step_value(context)? {
-            Array::push(&array, &[next], context)?;
+            // ArrayAccumulation: `CreateDataPropertyOrThrow(array, ToString(nextIndex), nextValue)`.
+            // `Array.prototype.push` would use `Set`, which consults the prototype chain
+            // (inherited setters / read-only elements).
+
+            // Fast path: push directly to dense indexed storage.
+            {
+                let mut o_mut = o.borrow_mut();
+                let len = o_mut.properties().storage[0].as_i32();
+                if let Some(len) = len
+                    && len < i32::MAX
+                    && o_mut.properties_mut().indexed_properties.push_dense(&next)
+                {
+                    o_mut.properties_mut().storage[0] = JsValue::new(len + 1);
+                    continue;
+                }
+            }
+
+            // Slow path: fall through to the generic property machinery.
+            let len = o
+                .length_of_array_like(context)
+                .js_expect("should have 'length' property")?;
+            o.create_data_property_or_throw(len, next, context)
+                .js_expect("should be able to create new data property")?;
         }
         Ok(())
     }
